@@ -22,5 +22,10 @@ sys.path.insert(0, "tools")
 import vlib
 print("model:", vlib.build_model())
 print("harness debug:", vlib.build_harness("debug"))
+print("harness hooks off:", vlib.build_harness("release", hooks=False))
+print("harness serde:", vlib.build_harness("release", hooks=True, features=("serde",)))
+print("harness hooks off + serde:", vlib.build_harness("release", hooks=False, features=("serde",)))
+import checks
+checks.precache_assumptions()
 PY
 echo "setup done"
